@@ -792,6 +792,34 @@ def shiftCellPos (dir : Dir) (num : Nat) (offset : Int) (c : Nat × Nat) : Optio
       | .cols => some (((c.1 : Int) + offset).toNat, c.2)
   else some c
 
+/-! ### calcChain across the cell setters (cell.go `removeFormula`, `SetCellFormula`) -/
+
+/-- formula cells (sheet id, column, row) and the calculation chain, entries with explicit sheet id -/
+structure ChainState where
+  formulas : List (Int × Nat × Nat)
+  chain : List CalcPos
+deriving Repr
+
+/-- `deleteCalcChain(sid, cell)` on coordinates: entries of that sheet at that cell, and entries
+without sheet id at that cell, are dropped -/
+def dropChainAt (cc : List CalcPos) (sid : Int) (c r : Nat) : List CalcPos :=
+  cc.filter fun e => !((e.i == sid && e.col == c && e.row == r) || (e.i == 0 && e.col == c && e.row == r))
+
+/-- every value setter (SetCellValue/Int/Float/Str/Bool/Default/RichText …) goes through
+`removeFormula`: a formula cell loses its formula and its chain entry; other cells: nothing -/
+def setCellValueC (s : ChainState) (sid : Int) (c r : Nat) : ChainState :=
+  if s.formulas.contains (sid, c, r) then
+    { formulas := s.formulas.filter (· != (sid, c, r)), chain := dropChainAt s.chain sid c r }
+  else s
+
+/-- `SetCellFormula`: an empty formula clears the cell's formula and its chain entry; a non-empty
+one makes the cell a formula cell and leaves the chain alone (the library never adds entries) -/
+def setCellFormulaC (s : ChainState) (sid : Int) (c r : Nat) (empty : Bool) : ChainState :=
+  if empty then
+    { formulas := s.formulas.filter (· != (sid, c, r)), chain := dropChainAt s.chain sid c r }
+  else
+    { s with formulas := if s.formulas.contains (sid, c, r) then s.formulas else s.formulas ++ [(sid, c, r)] }
+
 /-! ### pictures sharing a media part (picture.go `AddPictureFromBytes`, `DeletePicture`) -/
 
 /-- the relationship step of AddPictureFromBytes inside one drawing: an image relationship with
